@@ -69,13 +69,13 @@ Qed.
 (* ---- concrete histories ------------------------------------------------------------------------------------- *)
 Definition mk_create (ik rf : N) (dry : bool) (ps : list posting) : request :=
   {| rq_kind := KCreate; rq_ik := ik; rq_ref := rf; rq_dry := dry; rq_postings := ps; rq_unb := false;
-     rq_revert := O; rq_target_tx := None |}.
+     rq_revert := O; rq_target_tx := None; rq_meta := 0%N |}.
 Definition mk_revert (ik : N) (dry : bool) (id : nat) : request :=
   {| rq_kind := KRevert; rq_ik := ik; rq_ref := 0%N; rq_dry := dry; rq_postings := []; rq_unb := false;
-     rq_revert := id; rq_target_tx := None |}.
+     rq_revert := id; rq_target_tx := None; rq_meta := 0%N |}.
 Definition mk_meta (ik : N) (dry : bool) (target : option nat) : request :=
   {| rq_kind := KSaveMeta; rq_ik := ik; rq_ref := 0%N; rq_dry := dry; rq_postings := []; rq_unb := false;
-     rq_revert := O; rq_target_tx := target |}.
+     rq_revert := O; rq_target_tx := target; rq_meta := 0%N |}.
 
 (* the action list the sequential driver [Spec.drive] performs *)
 Fixpoint drive_acts (fuel : nat) (s : state) (t : tid) : list action :=
